@@ -61,3 +61,64 @@ def check(ctx, cfg, prog, mod, rule, owner_filter, floor):
         idx = sum(1 for o in ctx.obligations if o['rule'] == rule and o['cfg'] == cfg and o['key'].startswith('%s|IDKEEP|%s|' % (rule, owner)))
         ctx.ob(rule, 'IDKEEP|%s|site%d' % (owner, idx), cfg, ok, why, site='%s:%d' % (b.file, t.line))
     ctx.floor('%s: Vertex::new_with_uuid re-creation sites' % rule, floor, n, cfg)
+
+
+INSERT_TX = 'core::triangulation::Triangulation::insert_transactional'
+
+
+def check_first_attempt(ctx, cfg, prog, mod, rule):
+    """FIRSTTRY: the first attempt of an insertion uses the caller's coordinates as they are; the perturbed vertex is
+    re-created only on a retry: the `Vertex::new_with_uuid` site of insert_transactional is unreachable from entry once
+    the true edges of `attempt > 0` (a comparison of the loop counter named `attempt` with 0) are removed."""
+    import flow
+    b = ctx.anchor(cfg, INSERT_TX)
+    if b is None:
+        return
+    att = [l for l, nm in b.names.items() if nm == 'attempt']
+    site = '%s:%d' % (b.file, b.line)
+    if not att:
+        ctx.ob(rule, 'FIRSTTRY|' + INSERT_TX, cfg, False, 'no retry counter named `attempt` found (fail closed)', site=site)
+        return
+    carried = set(att)
+    changed = True
+    while changed:
+        changed = False
+        for blk in b.blocks:
+            for s_ in blk.stmts:
+                if s_.kind == 'A' and s_.place.is_local() and s_.place.local not in carried and s_.rv.k == 'use' and s_.rv.ops and \
+                        s_.rv.ops[0].place is not None and s_.rv.ops[0].place.is_local() and s_.rv.ops[0].place.local in carried:
+                    carried.add(s_.place.local)
+                    changed = True
+    uses = flow._collect_uses(b)
+    retry_edges = set()
+    for blk in b.blocks:
+        for s_ in blk.stmts:
+            if s_.kind != 'A' or s_.rv.k != 'bin' or not s_.place.is_local():
+                continue
+            op = s_.rv.raw.get('op')
+            ops = s_.rv.ops
+            if op not in ('Gt', 'Ne', 'Eq', 'Ge') or len(ops) != 2:
+                continue
+            a_is = ops[0].place is not None and ops[0].place.is_local() and ops[0].place.local in carried
+            if not a_is or ops[1].int_value() is None:
+                continue
+            k = ops[1].int_value()
+            for (sbb, _, snode, how) in uses.get(s_.place.local, []):
+                if how != 'switch':
+                    continue
+                listed = {v: tg for v, tg in snode.values}
+                false_t = listed.get(0)
+                true_t = snode.otherwise if 0 in listed else None
+                if (op == 'Gt' and k == 0) or (op == 'Ne' and k == 0) or (op == 'Ge' and k == 1):
+                    if true_t is not None:
+                        retry_edges.add((sbb, true_t))
+                elif op == 'Eq' and k == 0 and false_t is not None:
+                    retry_edges.add((sbb, false_t))
+    sites_ = [bb for bb, t in b.calls() if (t.resolved or t.callee) == VNEW]
+    reach = flow.reach_edges_cp(b, [0], avoid_edges=retry_edges)
+    bad = [x for x in sites_ if x in reach]
+    ok = bool(sites_) and bool(retry_edges) and not bad
+    ctx.ob(rule, 'FIRSTTRY|' + INSERT_TX, cfg, ok,
+           'the perturbed vertex is re-created only behind `attempt > 0` (%d retry edge(s))' % len(retry_edges) if ok else
+           'the perturbed vertex can be re-created on the first attempt (the re-creation site is reachable without passing '
+           '`attempt > 0`): stored coordinates are displaced although no retry was needed', site=site)
